@@ -124,6 +124,26 @@ def wrapper_instances(pool_name, rng, stride=1):
     return out
 
 
+def _block(weights, wires):
+    qp.CNOT(wires=[wires[0], wires[1]])
+    qp.RY(weights[0], wires=wires[0])
+    qp.RY(weights[1], wires=wires[1])
+
+
+def _trotter_qfunc(time, theta, wires, flip=False):
+    qp.RX(time * theta, wires[0])
+    if flip:
+        qp.CNOT(wires)
+
+
+def _poly(x, y):
+    return x + y
+
+
+def _qmc_fn(i):
+    return 0.5
+
+
 def _recipes(L):
     """(family, label, lambda v: object) for everything outside the gate table.  v in {0, 1} selects the parameter set."""
     a = ang
@@ -197,7 +217,7 @@ def _recipes(L):
     add("matrix", "QubitUnitary(1q)", lambda v: qp.QubitUnitary(P(v, U2, U2B), L[0]))
     add("matrix", "QubitUnitary(2q)", lambda v: qp.QubitUnitary(P(v, U4, U4B), [L[1], L[0]]))
     add("matrix", "DiagonalQubitUnitary", lambda v: qp.DiagonalQubitUnitary(P(v, [1, 1j, -1, -1j], [1, -1, 1j, 1]), wires=[L[0], L[1]]))
-    add("matrix", "SpecialUnitary", lambda v: qp.SpecialUnitary(P(v, [0.25, 0.5, 1.0], [1.0, 0.125, 0.5]), L[0]))
+    add("matrix", "SpecialUnitary", lambda v: qp.SpecialUnitary(P(v, [0.25, 0.5, 1.0], [1.0, 0.125, 0.5]), [L[0]]))
     add("matrix", "BlockEncode", lambda v: qp.BlockEncode(P(v, [[0.1, 0.2], [0.3, 0.4]], [[0.4, 0.1], [0.2, 0.3]]), wires=[L[0], L[1]]))
     add("matrix", "PCPhase", lambda v: qp.PCPhase(P(v, 0.25, 1.5), dim=2, wires=[L[0], L[1]]))
     add("matrix", "IntegerComparator", lambda v: qp.IntegerComparator(1, geq=False, wires=[L[0], L[1], L[2]]))
@@ -266,7 +286,7 @@ def _recipes(L):
     add("template", "FABLE", lambda v: qp.FABLE(np.array([[P(v, 0.1, 0.3), 0.2], [0.3, 0.4]]), wires=[L[0], L[1], L[2]], tol=0.0))
     add("template", "Adder", lambda v: qp.Adder(3, x_wires=[L[0], L[1], L[2]], mod=7, work_wires=[L[3], L[4]]))
     add("template", "PhaseAdder", lambda v: qp.PhaseAdder(3, x_wires=[L[0], L[1], L[2]], mod=7, work_wire=[L[3]]))
-    add("template", "Multiplier", lambda v: qp.Multiplier(3, x_wires=[L[0], L[1]], mod=3, work_wires=[L[2], L[3], L[4], L[5]]))
+    add("template", "Multiplier", lambda v: qp.Multiplier(2, x_wires=[L[0], L[1]], mod=3, work_wires=[L[2], L[3], L[4], L[5]]))
     add("template", "ModExp", lambda v: qp.ModExp(x_wires=[L[0]], output_wires=[L[1], L[2]], base=2, mod=3, work_wires=[L[3], L[4], L[5], L[6]]))
     add("template", "OutAdder", lambda v: qp.OutAdder(x_wires=[L[0]], y_wires=[L[1]], output_wires=[L[2], L[3]]))
     add("template", "OutMultiplier", lambda v: qp.OutMultiplier(x_wires=[L[0]], y_wires=[L[1]], output_wires=[L[2], L[3]]))
@@ -285,6 +305,30 @@ def _recipes(L):
     add("template", "FlipSign", lambda v: qp.FlipSign([1, 0], wires=[L[0], L[1]]))
     add("template", "QutritBasisStatePreparation-free:Interferometer-free:GateFabric", lambda v: qp.GateFabric(
         np.full((1, 1, 2), a(P(v, 1, 2))), wires=[L[0], L[1], L[2], L[3]], init_state=np.array([1, 1, 0, 0]), include_pi=True))
+    # ---- further classes (module-level callables so that pickling by reference is possible)
+    from pennylane.drawer.label import LabelledOp
+    from pennylane.fourier.mark import MarkedOp
+    from pennylane.templates.subroutines.time_evolution.trotter import TrotterizedQfunc
+    add("symbolic", "LabelledOp", lambda v: LabelledOp(qp.RX(a(P(v, 1, 2)), L[0]), "my-x"))
+    add("symbolic", "MarkedOp", lambda v: MarkedOp(qp.RX(a(P(v, 1, 2)), L[0]), "m"))
+    add("symbolic", "Conditional", lambda v: qp.ops.Conditional(qp.measure(L[1]), qp.RX(a(P(v, 1, 2)), L[0])))
+    add("matrix", "TmpPauliRot", lambda v: qp.ops.qubit.special_unitary.TmpPauliRot(a(P(v, 1, 2)), "X", [L[0]]))
+    add("matrix", "MeasureNode", lambda v: qp.qcut.MeasureNode(wires=L[0]))
+    add("matrix", "PrepareNode", lambda v: qp.qcut.PrepareNode(wires=L[0]))
+    add("template", "Incrementer", lambda v: qp.templates.Incrementer(wires=[L[0], L[1]], work_wires=[L[2]]))
+    add("template", "MPS", lambda v: qp.MPS([L[0], L[1], L[2]], 2, _block, 2, np.full((2, 2), a(P(v, 1, 2)))))
+    add("template", "TTN", lambda v: qp.TTN([L[0], L[1], L[2], L[3]], 2, _block, 2, np.full((3, 2), a(P(v, 1, 2)))))
+    add("template", "MERA", lambda v: qp.MERA([L[0], L[1], L[2], L[3]], 2, _block, 2, np.full((5, 2), a(P(v, 1, 2)))))
+    add("template", "MPSPrep", lambda v: qp.MPSPrep([np.array(P(v, [[0.0, 1.0], [1.0, 0.0]], [[1.0, 0.0], [0.0, 1.0]])), np.array([[1.0, 0.0], [0.0, 1.0]])],
+                                                    wires=[L[0], L[1]]))
+    add("template", "QuantumMonteCarlo", lambda v: qp.QuantumMonteCarlo(np.array(P(v, [0.25, 0.25, 0.25, 0.25], [0.5, 0.25, 0.125, 0.125])), _qmc_fn,
+                                                                        target_wires=[L[0], L[1], L[2]], estimation_wires=[L[3], L[4]]))
+    add("template", "TrotterizedQfunc", lambda v: TrotterizedQfunc(P(v, 0.25, 0.5), 2.5, qfunc=_trotter_qfunc, n=2, order=2, wires=[L[0], L[1]], flip=True))
+    add("template", "LocalHilbertSchmidt", lambda v: qp.LocalHilbertSchmidt([qp.RZ(a(P(v, 1, 2)), L[1])], [qp.Hadamard(L[0])]))
+    add("template", "MultiplexerStatePreparation", lambda v: qp.MultiplexerStatePreparation(np.array(P(v, [0.5, 0.5, 0.5, 0.5], [0.5, -0.5, 0.5, -0.5])), wires=[L[0], L[1]]))
+    add("template", "SumOfSlatersPrep", lambda v: qp.SumOfSlatersPrep(np.array(P(v, [0.6, 0.8], [0.8, 0.6])), wires=[L[0], L[1]], indices=[0, 3]))
+    add("template", "OutPoly", lambda v: qp.OutPoly(_poly, input_registers=[[L[0]], [L[1]]], output_wires=[L[2], L[3]]))
+    add("template", "FirstQuantization", lambda v: qp.estimator.FirstQuantization(1, 2, 1))
     # ---- parameters from the autodiff interfaces
     add("interface", "RX(autograd)", lambda v: qp.RX(qp.numpy.array(a(P(v, 1, 2)), requires_grad=True), L[0]))
     add("interface", "Rot(autograd,nograd)", lambda v: qp.Rot(qp.numpy.array(a(P(v, 1, 2)), requires_grad=False), qp.numpy.array(a(1), requires_grad=True), a(3), L[0]))
@@ -339,6 +383,9 @@ def _mp_recipes(L):
     add("shadow_expval", lambda v: qp.shadow_expval(qp.Hamiltonian([0.5, 1.5], [qp.X(L[0]), qp.Z(L[1])]), k=2, seed=3))
     add("MP(eigvals)", lambda v: qp.measurements.ExpectationMP(eigvals=np.array([1.0, -1.0, -1.0, 1.0]), wires=Wires([L[0], L[1]])))
     add("sample(eigvals)", lambda v: qp.measurements.SampleMP(eigvals=np.array([0.5, -0.5]), wires=Wires([L[2]])))
+    add("NullMeasurement", lambda v: qp.measurements.NullMeasurement())
+    add("expval(mcm)", lambda v: qp.expval(qp.measure(L[0])))
+    add("probs(mcms)", lambda v: qp.probs(op=[qp.measure(L[0]), qp.measure(L[1])]))
     return R
 
 
@@ -602,6 +649,51 @@ def cell_graph(obj):
             continue
         # anything else (functions, jax / torch arrays, enum members, PauliWord keys ...) is opaque and not counted as a cell
     return cells
+
+
+def legacy_data_ids(obj):
+    """ids of the parameter containers (ndarray / sparse matrix and their buffers) held in `data` of every LEGACY Operator
+    (pennylane.core.operator.base.Operator, whose __deepcopy__ documents a shallow copy of `_data`) reachable from obj."""
+    ids = set()
+    ops = [obj] + [x for (k, x) in cell_graph(obj).values() if k == "obj"]
+    for o in ops:
+        if isinstance(o, Operator) and not isinstance(o, Operator2):
+            try:
+                stack = list(o.data)
+            except Exception:
+                continue
+            while stack:
+                d = stack.pop()
+                if isinstance(d, (list, tuple)):
+                    stack.extend(d)
+                    continue
+                ids.add(id(d))
+                if isinstance(d, np.ndarray) and isinstance(d.base, np.ndarray):
+                    stack.append(d.base)
+                if hasattr(d, "toarray") and hasattr(d, "indices"):
+                    stack.extend(a for a in (d.data, d.indices, getattr(d, "indptr", None)) if a is not None)
+    return ids
+
+
+def classify_cells(obj, cell_items):
+    """'legacy-data' when every given cell (id, (kind, object)) is a parameter container of a legacy Operator reachable from
+    obj, otherwise the sorted kinds of the other cells.  Descriptive only (refines the violation key); TLC does not see it."""
+    leg = legacy_data_ids(obj)
+    other = sorted({k for i, (k, x) in cell_items if i not in leg})
+    return "legacy-data" if not other else "+".join(other)
+
+
+def wrapper_features(obj):
+    f = []
+    b = getattr(obj, "base", None)
+    if b is not None and getattr(b, "base", None) is not None and isinstance(b, (Operator, Operator2)):
+        f.append("nested-wrapper")
+    try:
+        if len(getattr(obj, "work_wires", ())) > 0:
+            f.append("work-wires")
+    except Exception:
+        pass
+    return "+".join(f)
 
 
 # ------------------------------------------------------------------------------------------------ actions on real objects
